@@ -12,6 +12,7 @@ import (
 	"sort"
 	"strings"
 	"sync"
+	"time"
 
 	"mosn.io/api"
 	v2 "mosn.io/mosn/pkg/config/v2"
@@ -294,7 +295,7 @@ func c17(args []string) int {
 	for _, k := range known {
 		knownSet[k] = true
 	}
-	run.Sum.Rule = "route part: generated route actions (rule kind prefix/path/regex/rpc/variable/dsl; request and response header parsers at route, virtual-host and router level with 0-3 additions (append nil/true/false; plain, %variable%, %undefined% and odd values) and 0-2 removals over a small overlapping key set with mixed case; prefix rewrite, regex rewrite with substitution, host rewrite / header-derived / auto (STRICT_DNS, other, absent cluster)) x generated requests (path with and without the matched prefix, unset/empty path, 0-4 headers). The real rule object is fetched from a real table and FinalizeRequestHeaders / FinalizeResponseHeaders are called on it. Non-trivial: at least two levels mutate a common key, or a rewrite applies; distinct by (action number, request). Plus redirect configurations (codes incl. unsupported, schemes incl. invalid, mixed case) and direct responses; and the local reply of the real downStream.chooseHost (hook proxy.VerifChooseHostLocalReply) for redirect / direct-response routes over current scheme x host (with :80 / :443 / other / no port, IPv6 literal, unset) x path x query: status, location, body."
+	run.Sum.Rule = "route part: generated route actions (rule kind prefix/path/regex/rpc/variable/dsl; request and response header parsers at route, virtual-host and router level with 0-3 additions (append nil/true/false; plain, %variable%, %undefined% and odd values) and 0-2 removals over a small overlapping key set with mixed case; prefix rewrite, regex rewrite with substitution, host rewrite / header-derived / auto (STRICT_DNS, other, absent cluster)) x generated requests (path with and without the matched prefix, unset/empty path, 0-4 headers). The real rule object is fetched from a real table and FinalizeRequestHeaders / FinalizeResponseHeaders are called on it. Non-trivial: at least two levels mutate a common key, or a rewrite applies; distinct by (action number, request). Plus redirect configurations (codes incl. unsupported, schemes incl. invalid, mixed case) and direct responses; and the local reply of the real downStream.chooseHost (hook proxy.VerifChooseHostLocalReply) for redirect / direct-response routes over current scheme x host (with :80 / :443 / other / no port, IPv6 literal, unset) x path x query: status, location, body. Plus request HISTORIES (4-7 requests with per-request variables, header values and x-mosn-router-meta) through one Routers object with time-out / retry policy / metadata_match / weighted-cluster metadata configured: request k must give what it gives alone on a freshly built Routers, and the header maps returned for request k must not change afterwards."
 	shHeader := "From MV Require Import Model.Router Model.RouteAction Gen.RouteSrc.\nFrom Coq Require Import List String.\nImport ListNotations.\nOpen Scope string_scope.\n"
 	sh := run.NewShard(shHeader, "ra_case", "ra_mismatches var_rule_finalizes dsl_rule_finalizes redirect_strip")
 	flush := func() {
@@ -634,8 +635,143 @@ func c17(args []string) int {
 			CoqString(cur[types.VarScheme]), CoqString(cur[types.VarHost]), CoqString(cur[types.VarPath]), CoqString(cur[types.VarQueryString]), CoqNat(gotStatus), CoqString(gotLoc)), rep)
 		flush()
 	}
+	c17Histories(run, knownSet)
 	sh.Close()
 	return run.Finish()
+}
+
+// routeStatics: what a route says about itself, apart from any request: time-out, retry policy, metadata match criteria
+// (default cluster and a weighted cluster), upstream protocol, redirect / direct response rule
+func routeStatics(rt api.Route) string {
+	rule := rt.RouteRule()
+	var b strings.Builder
+	fmt.Fprintf(&b, "timeout=%v proto=%q", rule.GlobalTimeout(), rule.UpstreamProtocol())
+	if p := rule.Policy(); p != nil && p.RetryPolicy() != nil {
+		rp := p.RetryPolicy()
+		fmt.Fprintf(&b, " retry=(%v %v %d %v)", rp.RetryOn(), rp.TryTimeout(), rp.NumRetries(), rp.RetryableStatusCodes())
+	}
+	for _, cn := range []string{"c17plain", "wc1", "wc2"} {
+		if mc := rule.MetadataMatchCriteria(cn); mc != nil {
+			fmt.Fprintf(&b, " criteria[%s]=", cn)
+			for _, kv := range mc.MetadataMatchCriteria() {
+				fmt.Fprintf(&b, "%s:%s,", kv.MetadataKeyName(), kv.MetadataValue())
+			}
+		}
+	}
+	if rd := rt.RedirectRule(); rd != nil {
+		fmt.Fprintf(&b, " redirect=(%d %q %q %q)", rd.RedirectCode(), rd.RedirectPath(), rd.RedirectHost(), rd.RedirectScheme())
+	}
+	return b.String()
+}
+
+// c17Histories: state leaking across requests and aliasing.  A history of requests (with per-request variables, header
+// values used by %variable% formatters, and a per-request x-mosn-router-meta map) goes through ONE Routers object:
+// MatchRoute, FinalizeRequestHeaders, FinalizeResponseHeaders, the route's static answers.  Request k must give exactly
+// what it gives alone on a Routers freshly built from the same configuration; and the header maps handed back for
+// request k must not change while later requests are served.
+func c17Histories(run *Run, knownSet map[string]bool) {
+	r := run.R
+	nh := run.N(80, 800)
+	for hi := 0; hi < nh; hi++ {
+		a := genAction(r)
+		a.Cluster = "c17plain"
+		mkConfig := func() *v2.RouterConfiguration {
+			rc := a.v2config()
+			rt := &rc.VirtualHosts[0].Routers[0]
+			rt.Route.Timeout = time.Duration(1+hi%7) * time.Second
+			rt.Route.UpstreamProtocol = []string{"", "Http1", "bolt"}[hi%3]
+			if hi%2 == 0 {
+				rt.Route.RetryPolicy = &v2.RetryPolicy{RetryPolicyConfig: v2.RetryPolicyConfig{RetryOn: true, NumRetries: uint32(hi % 5), StatusCodes: []uint32{502, 503}}, RetryTimeout: time.Duration(hi%4) * time.Second}
+			}
+			if hi%3 != 0 {
+				rt.Route.MetadataMatch = map[string]string{"zone": "a", "version": fmt.Sprint(hi % 2)}
+			}
+			if hi%4 == 0 {
+				rt.Route.WeightedClusters = []v2.WeightedCluster{
+					{Cluster: v2.ClusterWeight{ClusterWeightConfig: v2.ClusterWeightConfig{Name: "wc1", Weight: 1}, MetadataMatch: map[string]string{"zone": "b"}}},
+					{Cluster: v2.ClusterWeight{ClusterWeightConfig: v2.ClusterWeightConfig{Name: "wc2", Weight: 3}, MetadataMatch: map[string]string{"ver": "2", "zone": "c"}}},
+				}
+			}
+			return rc
+		}
+		shared, err := router.NewRouters(mkConfig())
+		if err != nil {
+			fmt.Println("c17: unexpected construction error", err)
+			return
+		}
+		type kept struct {
+			hdr, resp protocol.CommonHeader
+			snapH     string
+			snapR     string
+			statics   string
+			route     api.Route
+		}
+		var retained []kept
+		var reqLog []interface{}
+		eval := func(rs types.Routers, e envT, meta map[string]string) (string, kept) {
+			sctx, sh0 := a.selector().ctx()
+			rt := rs.MatchRoute(sctx, sh0)
+			if rt == nil {
+				return "no-route", kept{}
+			}
+			q := reqT{Vars: e.Vars, Hdr: e.Hdr}
+			ctx, hm := q.ctx()
+			variable.Set(ctx, types.VarRouterMeta, meta)
+			ri := network.NewRequestInfo()
+			snap := cluster.GetClusterMngAdapterInstance().GetClusterSnapshot(context.Background(), "c17plain")
+			ri.OnUpstreamHostSelected(cluster.NewSimpleHost(v2.Host{HostConfig: v2.HostConfig{Address: "127.0.0.1:8080", Hostname: e.DNSHost}}, snap.ClusterInfo()))
+			rule := rt.RouteRule()
+			guarded("history", e, func() { rule.FinalizeRequestHeaders(ctx, hm, ri) })
+			path, _ := variable.GetString(ctx, types.VarPath)
+			auth, _ := variable.GetString(ctx, types.VarIstioHeaderHost)
+			ctx2, hm2 := q.ctx()
+			guarded("history", e, func() { rule.FinalizeResponseHeaders(ctx2, hm2, ri) })
+			h1, h2 := hm.(protocol.CommonHeader), hm2.(protocol.CommonHeader)
+			k := kept{hdr: h1, resp: h2, snapH: fmtMap(h1), snapR: fmtMap(h2), statics: routeStatics(rt), route: rt}
+			return fmt.Sprintf("req=%s path=%q authority=%q resp=%s statics{%s}", k.snapH, path, auth, k.snapR, k.statics), k
+		}
+		nreq := 4 + r.Intn(4)
+		for k := 0; k < nreq; k++ {
+			e := envT{Vars: map[string]string{}, Hdr: map[string]string{}, DNSHost: r.PickS([]string{"dns-host.example", "h2.example"})}
+			e.Vars[types.VarPath] = r.PickS([]string{"/", "/a", "/a/b", "/svc/x", "/r/12", "/x/42", a.Matched + "/rest"})
+			e.Vars[types.VarMethod] = r.PickS(methods)
+			e.Vars[types.VarScheme] = r.PickS([]string{"http", "https"})
+			e.Vars[types.VarHost] = fmt.Sprintf("h%d.example", k)
+			for i, n := 0, r.Intn(5); i < n; i++ {
+				e.Hdr[r.PickS(c17Keys)] = fmt.Sprintf("req%d-%s", k, r.PickS([]string{"h1", "h2", ""}))
+			}
+			meta := map[string]string{"zone": fmt.Sprintf("req%d", k), r.PickS([]string{"canary", "version"}): "x"}
+			reqLog = append(reqLog, map[string]interface{}{"env": e, "router_meta": meta})
+			got, kp := eval(shared, e, meta)
+			fresh, ferr := router.NewRouters(mkConfig())
+			if ferr != nil {
+				run.Fail("c17:history:configuration-not-accepted-twice", ferr.Error(), map[string]interface{}{"action": a})
+				break
+			}
+			want, _ := eval(fresh, e, meta)
+			run.Count(fmt.Sprintf("%d|hist|%d|%d", run.Seed, hi, k), k > 0, "history:request")
+			if got != want {
+				run.Fail("c17:history:request-differs-from-fresh-evaluation", fmt.Sprintf("request %d of a history on one Routers object gives %s; alone on a freshly built Routers it gives %s", k, got, want),
+					map[string]interface{}{"action": a, "history": reqLog})
+				break
+			}
+			retained = append(retained, kp)
+		}
+		reportPanics(run, "c17", map[string]interface{}{"action": a, "history": reqLog})
+		// aliasing: what was handed back for request k is still the same after the later requests
+		for k, kp := range retained {
+			if kp.hdr == nil {
+				continue
+			}
+			if fmtMap(kp.hdr) != kp.snapH || fmtMap(kp.resp) != kp.snapR {
+				run.Fail("c17:aliasing:finalized-headers-changed-after-later-request", fmt.Sprintf("the headers finalized for request %d were %s / %s and are now %s / %s", k, kp.snapH, kp.snapR, fmtMap(kp.hdr), fmtMap(kp.resp)),
+					map[string]interface{}{"action": a, "history": reqLog})
+			}
+			if s := routeStatics(kp.route); s != kp.statics {
+				run.Fail("c17:history:route-statics-changed", fmt.Sprintf("the route matched for request %d said %s and now says %s", k, kp.statics, s), map[string]interface{}{"action": a, "history": reqLog})
+			}
+		}
+	}
 }
 
 // multiLevel: do at least two of the three levels touch a common (lower-cased) key?
